@@ -4,24 +4,24 @@ namespace Goml.Infer
 open Goml Goml.Unify
 
 def Just1 (e : IExpr) : Prop :=
-  ∀ exp G Γ s t Γ' s', go e exp G Γ s = some (t, Γ', s') → s'.diags = [] →
+  ∀ exp G Γ s t Γ' s', go e exp G Γ s = some (t, Γ', s') → Clean s' →
     ∀ B, BIn B (binders t) → EnvAll B Γ →
       EnvAll B Γ' ∧ JL B G.funs s'.cs (obls t) ∧ (∀ x, exp = some x → Constraint.eq t.ty x ∈ s'.cs)
 
 def JustLs (es : List IExpr) : Prop :=
-  (∀ G Γ s ts Γ' s', goL es G Γ s = some (ts, Γ', s') → s'.diags = [] →
+  (∀ G Γ s ts Γ' s', goL es G Γ s = some (ts, Γ', s') → Clean s' →
     ∀ B, BIn B (bindersL ts) → EnvAll B Γ → EnvAll B Γ' ∧ JL B G.funs s'.cs (oblsL ts)) ∧
-  (∀ xs G Γ s ts Γ' s', goZip es xs G Γ s = some (ts, Γ', s') → s'.diags = [] →
+  (∀ xs G Γ s ts Γ' s', goZip es xs G Γ s = some (ts, Γ', s') → Clean s' →
     ∀ B, BIn B (bindersL ts) → EnvAll B Γ → EnvAll B Γ' ∧ JL B G.funs s'.cs (oblsL ts)) ∧
-  (∀ exp G Γ s ts Γ' s', goBlock es exp G Γ s = some (ts, Γ', s') → s'.diags = [] →
+  (∀ exp G Γ s ts Γ' s', goBlock es exp G Γ s = some (ts, Γ', s') → Clean s' →
     ∀ B, BIn B (bindersL ts) → EnvAll B Γ → EnvAll B Γ' ∧ JL B G.funs s'.cs (oblsL ts))
 
 def JustA (arms : List IArm) : Prop :=
-  ∀ sty exp armTy G Γ s tas Γ' s', goArms arms sty exp armTy G Γ s = some (tas, Γ', s') → s'.diags = [] →
+  ∀ sty exp armTy G Γ s tas Γ' s', goArms arms sty exp armTy G Γ s = some (tas, Γ', s') → Clean s' →
     ∀ B, BIn B (bindersA tas) → EnvAll B Γ → EnvAll B Γ' ∧ JL B G.funs s'.cs (oblsA tas sty (exp.getD armTy))
 
 theorem absurd_err {α : Prop} {i exp v Γx} {s0 : St} {d} {t Γ' s'}
-    (h : finish i exp v (errExpr (s0.diag d)).1 Γx (errExpr (s0.diag d)).2 = some (t, Γ', s')) (hd : s'.diags = []) : α := by
+    (h : finish i exp v (errExpr (s0.diag d)).1 Γx (errExpr (s0.diag d)).2 = some (t, Γ', s')) (hd : Clean s') : α := by
   obtain ⟨_, _, lf, _⟩ := finish_inv h
   exact (diag_absurd ((le_errExpr _).trans lf) hd).elim
 
@@ -121,7 +121,7 @@ theorem go_just : ∀ e, Just1 e := by
     split at h
     · obtain ⟨rfl, rfl, lf, hexp⟩ := finish_inv h
       exact ⟨hΓ, by simp only [obls]; exact JL.nil, hexp⟩
-    · obtain ⟨ts, Γ1, s1, h1, l1⟩ := (goL_le es).2.2 exp G (pushScope Γ) s
+    · obtain ⟨ts, Γ1, s1, h1, l1⟩ := (goL_le es).2.2.1 exp G (pushScope Γ) s
       simp only [h1] at h
       obtain ⟨rfl, rfl, lf, hexp⟩ := finish_inv h
       simp only [binders] at hB
@@ -428,6 +428,28 @@ theorem go_just : ∀ e, Just1 e := by
       refine ⟨e2, ?_, hexp⟩
       simp only [obls]
       exact JL.append (j1.mono L1) (j2.mono lf)
+  -- mcall, scall, array: outside the theorem for now (ghost flag)
+  · intro i fi recv m args _ _ exp G Γ s t Γ' s' h hd B hB hΓ
+    obtain ⟨t1, Γ1, s1, h1, l1⟩ := go_le (.mcall i fi recv m args) exp G Γ s.mark
+    have e : go (.mcall i fi recv m args) exp G Γ s = go (.mcall i fi recv m args) exp G Γ s.mark := by rw [go, go]; rfl
+    rw [e, h1] at h
+    simp only [Option.some.injEq, Prod.mk.injEq] at h
+    obtain ⟨_, _, rfl⟩ := h
+    exact (mark_absurd l1 hd).elim
+  · intro i fi tyName m args _ exp G Γ s t Γ' s' h hd B hB hΓ
+    obtain ⟨t1, Γ1, s1, h1, l1⟩ := go_le (.scall i fi tyName m args) exp G Γ s.mark
+    have e : go (.scall i fi tyName m args) exp G Γ s = go (.scall i fi tyName m args) exp G Γ s.mark := by rw [go, go]; rfl
+    rw [e, h1] at h
+    simp only [Option.some.injEq, Prod.mk.injEq] at h
+    obtain ⟨_, _, rfl⟩ := h
+    exact (mark_absurd l1 hd).elim
+  · intro i items _ exp G Γ s t Γ' s' h hd B hB hΓ
+    obtain ⟨t1, Γ1, s1, h1, l1⟩ := go_le (.array i items) exp G Γ s.mark
+    have e : go (.array i items) exp G Γ s = go (.array i items) exp G Γ s.mark := by rw [go, go]; rfl
+    rw [e, h1] at h
+    simp only [Option.some.injEq, Prod.mk.injEq] at h
+    obtain ⟨_, _, rfl⟩ := h
+    exact (mark_absurd l1 hd).elim
   -- arm
   · intro p body ih; exact ih
   -- []
@@ -478,7 +500,7 @@ theorem go_just : ∀ e, Just1 e := by
     · intro exp G Γ s ts Γ' s' h hd B hB hΓ
       rw [goBlock] at h
       obtain ⟨t, Γ1, s1, h1, l1⟩ := go_le e (if es.isEmpty then exp else none) G Γ s
-      obtain ⟨ts2, Γ2, s2, h2, l2⟩ := (goL_le es).2.2 exp G Γ1 s1
+      obtain ⟨ts2, Γ2, s2, h2, l2⟩ := (goL_le es).2.2.1 exp G Γ1 s1
       simp only [h1, h2, Option.some.injEq, Prod.mk.injEq] at h
       obtain ⟨rfl, rfl, rfl⟩ := h
       simp only [bindersL] at hB
